@@ -458,7 +458,11 @@ def main():
     lv, nlv, classes = explore_leaves(rng, 40 if quick else 400)
     for f, msg in lv:
       v.mismatch(f, {'message': msg})
+    # positional-only / *args / keyword-only / **kwargs argument stores (FdlStore states) through JSON
+    from harness import storecodec  # pylint: disable=g-import-not-at-top
+    sc = storecodec.run(v, wd, quick, storecodec.JSON_CODECS)
   v.coverage.update({
+      'store_states_round_tripped': sc,
       'states': states, 'transitions': trans,
       'traces_validated_against_impl': totals['lines'] + dtot['lines'] + nrc,
       'evaluations': totals['lines'] + dtot['lines'] + nrc + nlv,
